@@ -1,7 +1,7 @@
 """Every source-to-Lean translator, in dependency order (climain uses cliresolve's pre-pass image)."""
 import importlib
 
-NAMES = ["named", "templates", "statesig", "leaves", "optimiser", "strhelpers", "parsersrc", "parserseq", "convstr", "api",
+NAMES = ["named", "templates", "statesig", "leaves", "optimiser", "strhelpers", "parsersrc", "parserseq", "convstr", "hexsrc", "api",
          "cliresolve", "climain", "clirules", "clisrc", "effectsig", "escapesig"]
 
 
